@@ -377,6 +377,22 @@ def declared_here(pipe, prefix):
     return set()
 
 
+# names EVERY Python object has, None included: a key whose path does not exist (a misspelt inner component) must not be
+# confirmed by has() just because its last component is one of them
+UNIVERSAL_DUNDERS = ["__class__", "__eq__", "__doc__", "__init__", "__reduce__", "__hash__", "__str__", "__repr__", "__ne__", "__dir__"]
+
+
+def missing_path_dunder_key(r, key: str):
+    parts = key.split(".")
+    d = r.randrange(1, len(parts) + 1) if len(parts) > 1 else 1
+    prefix = parts[:d]
+    i = r.randrange(len(prefix))
+    prefix[i] = misspell(r, prefix[i])
+    while prefix[i].startswith("_"):
+        prefix[i] = misspell(r, parts[i])
+    return ".".join(prefix + [r.choice(UNIVERSAL_DUNDERS)])
+
+
 def class_attr_key(r, key: str, pipe, det="ccd", dunder=0.25):
     """a valid key cut after one of its objects + a class-level name of that object's class"""
     parts = key.split(".")
@@ -413,6 +429,8 @@ def mutate_key(r, key: str, pipe, det="ccd"):
     parts = key.split(".")
     k = r.randrange(12)
     if k >= 10:
+        if r.random() < 0.2:
+            return missing_path_dunder_key(r, key), "missing_path_dunder"
         return class_attr_key(r, key, pipe, det), "class_attr_last"
     if k <= 3:  # misspelt last component (edit distance 1)
         parts[-1] = misspell(r, parts[-1])
@@ -598,6 +616,13 @@ def exhaustive_class_attr_cases(ctx: Ctx):
                 chosen = new + r.sample(pub, min(1, len(pub)))
             for n in chosen:
                 add(det, prefix, n)
+    # a path that does not exist + a name every object (None included) has
+    for prefix in (["detector", "geomtry"], ["detecto"], ["detector", "environment", "temperatur"],
+                   ["pipeline", "photon_colection", "illumination"], ["pipeline", "photon_collection", "illumination", "argument"],
+                   ["pipeline", "phasing", "m"]):
+        for n in r.sample(UNIVERSAL_DUNDERS, 2):
+            add("ccd", prefix, n)
+            cases[-1]["kind"] = "missing_path_dunder"
     return cases
 
 
@@ -857,7 +882,14 @@ def run_variant(r, c):
     that it was executed and with which argument values: with a bad key among the steps the sweep must fail before any
     model executes; an accepted sweep that completes must have had its effect on the models it addresses"""
     c["run"] = True
-    c["mode"] = r.choice(["product", "sequential"])
+    c["mode"] = r.choice(["product", "sequential", "product", "sequential", "custom"])
+    if c["mode"] == "custom" and not any(c["step_enabled"]):
+        c["mode"] = "product"
+    if c["mode"] == "custom":
+        # one run per row of a table file: the columns are floats (a column of 0.0 / 1.0 over an `enabled` key included)
+        n = r.choice([2, 3])
+        c["values"] = [[jv(x) for x in (r.choice([[0.0, 1.0, 1.0], [1.0, 0.0, 2.0], [1.0, 1.0, 0.5]]) if k.endswith(".enabled")
+                                        else r.choice([[1.0, 2.0, 4.0], [0.5, 2.0, 1.0], [0.0, 1.0, 3.0]]))[:n]] for k in c["keys"]]
     c["pipe"] = {g: [dict(m, func=f"verif_probes_c08.rec__{g}__{m['name']}") for m in ms] for g, ms in c["pipe"].items()}
     return c
 
@@ -1357,7 +1389,7 @@ def validate_violation(ctx, c, o, clause) -> Violation:
                 if en is False:
                     bad.add("disabled_model")
         sig["offending"] = "+".join(sorted(bad)) or "unclassified"
-    case = {k: c[k] for k in ("op", "det", "pipe", "step_enabled", "run", "mode") if k in c}
+    case = {k: c[k] for k in ("op", "det", "pipe", "step_enabled", "run", "mode", "values", "pre") if k in c}
     case["keys"], case["kinds"] = c["all_keys"], c["all_kinds"]
     if clause == "sweep_ran":
         return Violation(clause=clause, case=case, observed=dict(validate=o["validate"], ran=o.get("ran")),
